@@ -16,6 +16,7 @@ def parseKind : String → Option IoKind
   | "other" => some .other
   | "writezero" => some .writeZero
   | "brokenpipe" => some .brokenPipe
+  | "interrupted" => some .interrupted
   | _ => none
 
 def faultRead (bytes : Bytes) (fa : Option Nat) (kind : IoKind := .injected) : String :=
@@ -46,12 +47,38 @@ def faultStream (bytes : Bytes) (ext : Ext) (cs : Array Consume) (dflt : Consume
     match fuel with
     | 0 => fin acc d
     | fuel + 1 =>
-      match streamEntryC ext ((cs[i]?).getD dflt) fa d with
+      match streamEntryCI ext ((cs[i]?).getD dflt) fa d with
       | (.err e, d') => fin (s!"{i}={clsC e}" :: acc) d'
       | (.panic _, _) => "panic"
       | (.ok none, d') => fin ("end" :: acc) d'
       | (.ok (some (f, res)), d') => go fuel (i + 1) d' (s!"{i}={toHex f.fileName}:{showOutBytes res}" :: acc)
   go 64 0 (Dev.ofBytesK bytes kind) []
+
+/-- `fault.visit`: `ZipStreamReader::visit` — one `visitFile` + drain (= `visitEntry`) per round (the entries shown before an
+error stay visible), then `visitCentral`; the composition is `Model.streamVisitC`. -/
+def faultVisit (bytes : Bytes) (ext : Ext) (cs : Array Consume) (dflt : Consume) (fa : Option Nat) (kind : IoKind) : String :=
+  let fin (acc : List String) (d : Dev) : String := " ".intercalate (acc.reverse ++ [s!"ncalls={d.calls}"])
+  let central (acc : List String) (d : Dev) : String :=
+    match visitCentral bytes.length fa d with
+    | (.err e, d') => fin (s!"visit={clsC e}" :: acc) d'
+    | (.panic _, _) => "panic"
+    | (.ok ms, d') => fin ("visit=ok" :: (ms.map fun m => s!"m={toHex m.fileName}").reverse ++ acc) d'
+  let rec go (fuel i : Nat) (d : Dev) (acc : List String) : String :=
+    match fuel with
+    | 0 => central acc d
+    | fuel + 1 =>
+      match visitFile ext ((cs[i]?).getD dflt) fa d with
+      | (.err e, d') => fin (s!"visit={clsC e}" :: acc) d'
+      | (.panic _, _) => "panic"
+      | (.ok none, d') => central acc d'
+      | (.ok (some (f, bs, rem)), d') =>
+        -- `visit_file` has returned: the entry was shown; now the explicit drain (the second half of `visitEntry`)
+        let acc := s!"{i}={toHex f.fileName}:{showOutBytes (.ok bs)}" :: acc
+        match M.retried (drainE rem) fa d' with
+        | (.err e, d'') => fin (s!"visit={clsC e}" :: acc) d''
+        | (.panic _, _) => "panic"
+        | (.ok (), d'') => go fuel (i + 1) d'' acc
+  go (bytes.length / 30 + 1) 0 (Dev.ofBytesK bytes kind) []
 
 /-- the consumers of a `fault.stream` / `fault.visit` line: everyone asks for `consume` decoded bytes; `pulled=` /
 `cbuf=` per entry (measured by the harness on the fault-free run for compressed entries), default: pulls what it
@@ -71,12 +98,18 @@ def opFault (op : String) (a : Args) : Option String := do
   let kind : IoKind ← (match a.get? "kind" with
     | none => some .injected
     | some n => parseKind n)
+  -- `Interrupted` inside std's retry loops is described only by the streaming ops (`M.retried`); see the harness
+  if (op == "fault.read" || op == "fault.write") && kind == .interrupted && fa.isSome then some "oracle-only" else
   match op with
-  | "fault.enc" | "fault.writec" | "fault.writeo" | "fault.rawcopy" | "fault.streamo" => some "oracle-only"   -- cipher / codec layers are external: judged by the oracle alone
+  | "fault.enc" | "fault.writec" | "fault.writeo" | "fault.rawcopy" | "fault.streamo" | "fault.visito" => some "oracle-only"   -- cipher / codec layers are external: judged by the oracle alone
   | "fault.stream" =>
     let (cs, dflt) ← consumersOf a
     let codec := (a.get? "codec").getD "-"
     some (faultStream (← a.hex? "bytes") (mkExtB (parseCodec codec) (parseBefore codec)) cs dflt fa kind)
+  | "fault.visit" =>
+    let (cs, dflt) ← consumersOf a
+    let codec := (a.get? "codec").getD "-"
+    some (faultVisit (← a.hex? "bytes") (mkExtB (parseCodec codec) (parseBefore codec)) cs dflt fa kind)
   | "fault.read" => some (faultRead (← a.hex? "bytes") fa kind)
   | "fault.write" =>
     let calls := ((a.get? "calls").getD "").splitOn ";"
